@@ -177,10 +177,14 @@ def complete_url(path   : str,
     # resource -- we make no attempt at expanding the path at this point.
     # We further assume that the user knows what she is doing when using
     # absolute paths, and make no attempts to verify those either.
+    rel_path = None
     if not purl.schema:
         if str_path.startswith('/'):
             purl.schema = 'file'
         else:
+            # NOTE: setting the schema normalizes the path against the URL
+            #       root and thereby drops any leading `../` elements
+            rel_path    = purl.path
             purl.schema = 'pwd'
 
     if log:
@@ -217,7 +221,10 @@ def complete_url(path   : str,
             ret = ru.Url(context[purl.schema])
 
         if expand:
-            ret.path += '/%s' % purl.path
+            if rel_path is not None:
+                ret.path += '/%s' % rel_path
+            else:
+                ret.path += '/%s' % purl.path
 
         if expand:
             if log:
